@@ -128,7 +128,10 @@ class Program(object):
 
         address = 0
         for index, statement in enumerate(self.statements):
-            address = statement.set_address(address)
+            try:
+                address = statement.set_address(address)
+            except ValueTypeError:
+                raise TranslationError("address ${:X} is outside the 64K address space".format(address), statement)
             address += statement.code_pkg.size
 
         for index, statement in enumerate(self.statements):
